@@ -99,6 +99,121 @@ def extract_consts():
     return {'reimage_bins': bins}
 
 
+# ---- C04: the event -> jump loop body, statement by statement ----
+
+FIELD = {'start site': 'start_site', 'destination site': 'destination_site', 'start inner site': 'start_inner_site',
+         'destination inner site': 'destination_inner_site', 'start time': 'start_time', 'stop time': 'stop_time',
+         'atom index': 'atom_index'}
+CMP = {ast.NotEq: '≠', ast.Eq: '=', ast.GtE: '≥', ast.Gt: '>', ast.Lt: '<', ast.LtE: '≤'}
+STATE_VARS = ('fromevent', 'candidate_jump')
+
+
+class Untranslatable(Exception):
+    pass
+
+
+def _expr(node, bound):
+    if isinstance(node, ast.Subscript) and isinstance(node.value, ast.Name) and isinstance(node.slice, ast.Constant):
+        nm = node.value.id
+        if nm in STATE_VARS:
+            if nm not in bound:
+                raise Untranslatable(f'{nm}[...] read outside an `is not None` guard')
+            nm = nm + '_v'
+        return f'{nm}.{FIELD[node.slice.value]}'
+    if isinstance(node, ast.Name):
+        if node.id == 'minimal_residence':
+            return 'mr'
+        raise Untranslatable(f'name {node.id}')
+    if isinstance(node, ast.Constant) and isinstance(node.value, int):
+        return f'({node.value})'
+    if isinstance(node, ast.UnaryOp) and isinstance(node.op, ast.USub):
+        return f'(-{_expr(node.operand, bound)})'
+    if isinstance(node, ast.BinOp) and isinstance(node.op, (ast.Sub, ast.Add)):
+        op = '-' if isinstance(node.op, ast.Sub) else '+'
+        return f'({_expr(node.left, bound)} {op} {_expr(node.right, bound)})'
+    if isinstance(node, ast.Compare) and len(node.ops) == 1 and type(node.ops[0]) in CMP:
+        return f'{_expr(node.left, bound)} {CMP[type(node.ops[0])]} {_expr(node.comparators[0], bound)}'
+    raise Untranslatable(ast.dump(node)[:80])
+
+
+def _is_not_none(test):
+    return (isinstance(test, ast.Compare) and len(test.ops) == 1 and isinstance(test.ops[0], ast.IsNot)
+            and isinstance(test.left, ast.Name) and test.left.id in STATE_VARS
+            and isinstance(test.comparators[0], ast.Constant) and test.comparators[0].value is None)
+
+
+def _stmts(body, ind, bound, lines):
+    for st in body:
+        pad = '  ' * ind
+        if isinstance(st, ast.If):
+            _if(st, ind, bound, lines, first=True)
+        elif isinstance(st, ast.Assign) and len(st.targets) == 1:
+            tg, val = st.targets[0], st.value
+            if isinstance(tg, ast.Name) and tg.id in STATE_VARS:
+                if isinstance(val, ast.Constant) and val.value is None:
+                    lines.append(f'{pad}{tg.id} := none')
+                elif isinstance(val, ast.Name) and val.id == 'event':
+                    lines.append(f'{pad}{tg.id} := some event')
+                else:
+                    raise Untranslatable(ast.dump(st)[:80])
+            elif (isinstance(tg, ast.Subscript) and isinstance(tg.value, ast.Name) and tg.value.id == 'event'
+                  and isinstance(tg.slice, ast.Constant)):
+                lines.append(f'{pad}event := {{ event with {FIELD[tg.slice.value]} := {_expr(val, bound)} }}')
+            else:
+                raise Untranslatable(ast.dump(st)[:80])
+        elif (isinstance(st, ast.Expr) and isinstance(st.value, ast.Call) and isinstance(st.value.func, ast.Attribute)
+              and st.value.func.attr == 'append' and isinstance(st.value.func.value, ast.Name) and st.value.func.value.id == 'jumps'):
+            arg = st.value.args[0]
+            if isinstance(arg, ast.Name) and arg.id == 'event':
+                lines.append(f'{pad}jumps := jumps ++ [event]')
+            elif isinstance(arg, ast.Name) and arg.id in STATE_VARS and arg.id in bound:
+                lines.append(f'{pad}jumps := jumps ++ [{arg.id}_v]')
+            else:
+                raise Untranslatable(ast.dump(st)[:80])
+        else:
+            raise Untranslatable(ast.dump(st)[:80])
+
+
+def _if(node, ind, bound, lines, first):
+    pad = '  ' * ind
+    kw = 'if' if first else 'else if'
+    if _is_not_none(node.test):
+        v = node.test.left.id
+        lines.append(f'{pad}{kw} let some {v}_v := {v} then')
+        _stmts(node.body, ind + 1, bound | {v}, lines)
+    else:
+        lines.append(f'{pad}{kw} {_expr(node.test, bound)} then')
+        _stmts(node.body, ind + 1, bound, lines)
+    if node.orelse:
+        if len(node.orelse) == 1 and isinstance(node.orelse[0], ast.If):
+            _if(node.orelse[0], ind, bound, lines, first=False)
+        else:
+            lines.append(f'{pad}else')
+            _stmts(node.orelse, ind + 1, bound, lines)
+
+
+def extract_jump_step():
+    tree = ast.parse((REPO_SRC / 'jumps.py').read_text())
+    fn = next(n for n in ast.walk(tree) if isinstance(n, ast.FunctionDef) and n.name == '_generic_transitions_to_jumps')
+    loops = [n for n in ast.walk(fn) if isinstance(n, ast.For) and isinstance(n.iter, ast.Call)
+             and isinstance(n.iter.func, ast.Attribute) and n.iter.func.attr == 'iterrows']
+    if len(loops) != 1:
+        raise Untranslatable(f'{len(loops)} iterrows loops found')
+    lines = []
+    _stmts(loops[0].body, 1, set(), lines)
+    head = ('/-! GENERATED by harness/translate.py from src/gemdat/jumps.py (_generic_transitions_to_jumps, the body of the\n'
+            '`for _, event in events.iterrows()` loop, statement by statement) — do not edit -/\n'
+            'namespace G.Gen\n\n'
+            '/-- one row of the event table as the loop sees it (a pandas Series) -/\n'
+            'structure Row where\n  atom_index : Int\n  start_site : Int\n  destination_site : Int\n  start_inner_site : Int\n'
+            '  destination_inner_site : Int\n  start_time : Int\n  stop_time : Int\nderiving Repr, DecidableEq, Inhabited\n\n'
+            'def jumpStep (mr : Int) (fromevent0 candidate_jump0 : Option Row) (jumps0 : List Row) (event0 : Row) :\n'
+            '    Option Row × Option Row × List Row := Id.run do\n'
+            '  let mut fromevent := fromevent0\n  let mut candidate_jump := candidate_jump0\n  let mut jumps := jumps0\n  let mut event := event0\n')
+    tail = '  return (fromevent, candidate_jump, jumps)\n\nend G.Gen\n'
+    return head + '\n'.join(lines) + '\n' + tail
+
+
 def generate() -> tuple[bool, str]:
     log = []
     try:
@@ -118,6 +233,7 @@ def generate() -> tuple[bool, str]:
             lines.append(f'def {name}_used : List String := {lean_strs(used)}')
         lines.append('end G.Gen')
         _write(GGEN / 'CacheKeys.lean', '\n'.join(lines) + '\n')
+        _write(GGEN / 'JumpStep.lean', extract_jump_step())
         log.append(f'moves: {len(face)} face + {len(diag)} diagonal; loaders: ' + '; '.join(f'{k}: keyed={v[1]} used={v[2]}' for k, v in sorted(info.items())))
         return True, '\n'.join(log)
     except Exception as e:  # noqa: BLE001
